@@ -294,8 +294,19 @@ func (p *Posix) doesBucketAndObjectExist(bucket, object string) error {
 	if strings.HasSuffix(object, "/") != fi.IsDir() {
 		return s3err.GetAPIError(s3err.ErrNoSuchKey)
 	}
+	if fi.IsDir() && !p.isDirectoryObject(bucket, object) {
+		return s3err.GetAPIError(s3err.ErrNoSuchKey)
+	}
 
 	return nil
+}
+
+// isDirectoryObject reports whether a directory is an object of its own: one
+// that was put explicitly carries the etag attribute (the listings decide by
+// the same rule), any other directory only exists for the keys below it.
+func (p *Posix) isDirectoryObject(bucket, object string) bool {
+	_, err := p.meta.RetrieveAttribute(nil, bucket, object, etagkey)
+	return err == nil
 }
 
 // doesCurrentObjectExist is doesBucketAndObjectExist for calls that address
@@ -2983,7 +2994,7 @@ func (p *Posix) PutObject(ctx context.Context, po s3response.PutObjectInput) (s3
 		}
 
 		// the tags given with the upload; those of an earlier put go
-		err = p.PutObjectTagging(ctx, *po.Bucket, *po.Key, tags)
+		err = p.putAttrTags(*po.Bucket, *po.Key, tags)
 		if err != nil {
 			return s3response.PutObjectOutput{}, err
 		}
@@ -3813,6 +3824,12 @@ func (p *Posix) getObject(_ context.Context, input *s3.GetObjectInput) (*s3.GetO
 
 	objSize := fi.Size()
 	if fi.IsDir() {
+		// a directory that was not put as an object (the parent of other
+		// keys, or a directory object that was deleted while it had
+		// children) is not a key
+		if !p.isDirectoryObject(bucket, object) {
+			return nil, s3err.GetAPIError(s3err.ErrNoSuchKey)
+		}
 		// directory objects are always 0 len: a range is judged against
 		// that, not against the size of the directory inode
 		objSize = 0
@@ -3833,10 +3850,12 @@ func (p *Posix) getObject(_ context.Context, input *s3.GetObjectInput) (*s3.GetO
 
 		objMeta := p.loadObjectMetaData(bucket, object, &fi, userMetaData)
 		b, err := p.meta.RetrieveAttribute(nil, bucket, object, etagkey)
-		etag := string(b)
 		if err != nil {
-			etag = ""
+			// deleted in the meantime (the etag is what makes the
+			// directory an object)
+			return nil, s3err.GetAPIError(s3err.ErrNoSuchKey)
 		}
+		etag := string(b)
 
 		var tagCount *int32
 		tags, err := p.getAttrTags(bucket, object)
@@ -4113,12 +4132,21 @@ func (p *Posix) headObject(ctx context.Context, input *s3.HeadObjectInput) (*s3.
 		versionId = string(vId)
 	}
 
+	if fi.IsDir() && !p.isDirectoryObject(bucket, object) {
+		// not a key, see getObject
+		return nil, s3err.GetAPIError(s3err.ErrNoSuchKey)
+	}
+
 	userMetaData := make(map[string]string)
 	objMeta := p.loadObjectMetaData(bucket, object, &fi, userMetaData)
 
 	b, err := p.meta.RetrieveAttribute(nil, bucket, object, etagkey)
 	etag := string(b)
 	if err != nil {
+		if fi.IsDir() {
+			// deleted in the meantime, see getObject
+			return nil, s3err.GetAPIError(s3err.ErrNoSuchKey)
+		}
 		etag = ""
 	}
 
